@@ -58,6 +58,16 @@ class Pair(Generic[K, V]):
     def val(self) -> V: ...
 class Swap(Pair[V, K]):
     def first_of_swap(self) -> K: ...
+# explicit Generic[...] next to the real base: the class declares its variables in another order / more of them than the base uses
+class Keyed(Iterable[V], Generic[K, V]):
+    def keyof(self) -> K: ...
+    def lead_v(self) -> V: ...
+class Flip(Pair[U, T], Generic[T, U]):
+    def mine(self) -> T: ...
+class Plain0:
+    def tag(self) -> int: ...
+class GenFirst(Generic[T], Plain0):
+    def gf(self) -> T: ...
 class Node:
     # self-referential model: quoted forward references, also nested inside generic annotations
     def parent(self) -> "Node": ...
@@ -106,6 +116,10 @@ class Vtx(Base):
     @func_adl_callback(_cb_new_node)
     def best(self) -> Trk: ...
 class Event(Base):
+    def keyed(self) -> Keyed[float, Jet]: ...
+    def keyed_t(self) -> Keyed[Jet, Trk]: ...
+    def flip(self) -> Flip[Jet, Trk]: ...
+    def genfirst(self) -> GenFirst[Jet]: ...
     def vtx(self) -> Vtx: ...
     def vtxs(self) -> Iterable[Vtx]: ...
     def jets_boxed(self) -> Box[Iterable[Jet]]: ...
